@@ -797,6 +797,36 @@ def apalache_replace(ctx):
                          "inductive invariant of try_replacen (valid slices, tiling, at most K replacements) holds for every N and every K; integers only")
 
 
+def error_histories(ctx, excl):
+    """records built with a tiny backtrack limit: captures_iter / split / splitn / try_replacen must cohere with the find_iter history of the
+    same regex (part "eh" of TraceIter); heavy templates make the error arrive AFTER some matches"""
+    base = read_ndjson(pats("ctxfill", 0))
+    eh = []
+    for r in sample(ctx, base, 300 if ctx.quick else 1500):
+        eh.append(dict(r, bl=ctx.rng.choice([0, 1, 2, 3, 5, 8, 13])))
+    # matches first, then a search that needs many backtracks: D|(?:a|b|ab)*(?=c) style patterns over texts such as "-ab"
+    def Lit(c): return {"k": "lit", "c": c, "ci": False}
+    def Alt(xs): return {"k": "alt", "xs": xs}
+    def Cat(xs): return {"k": "cat", "xs": xs}
+    def Star(x): return {"k": "rep", "x": x, "lo": 0, "hi": -1, "g": True}
+    def Plus(x): return {"k": "rep", "x": x, "lo": 1, "hi": -1, "g": True}
+    def Look(x): return {"k": "look", "neg": False, "x": x}
+    def Grp(n, x): return {"k": "grp", "n": n, "x": x}
+    heavy = [Alt([Lit("D"), Cat([Plus(Alt([Lit("a"), Lit("b"), Cat([Lit("a"), Lit("b")])])), Look(Lit("c"))])]),
+             Alt([Lit("D"), Cat([Grp(1, Plus(Alt([Lit("a"), Cat([Lit("a"), Lit("a")])]))), Look(Lit("c"))])]),
+             Alt([Cat([Lit("D"), Look({"k": "empty"})]), Cat([Plus(Alt([Lit("a"), Lit("b")])), Lit("c")])]),
+             Alt([Cat([Lit("N"), Look({"k": "empty"})]), Cat([Plus(Alt([Lit("a"), Lit("b"), Cat([Lit("b"), Lit("a")])])), Look(Lit("c"))])])]
+    hv = []
+    for h in heavy:
+        for bl in (2, 4, 6, 10, 16, 30):
+            hv.append(dict(ast=h, ng=1 if "grp" in json.dumps(h) else 0, bl=bl))
+    res = iterp.run_iters(ctx, "errhist_eh", renumber_ids(eh), texts("sig6", 2) if ctx.quick else texts("sig6", 3), "eh", excl)
+    res2 = iterp.run_iters(ctx, "errhist_heavy", renumber_ids(hv), texts("sig6", 3) if ctx.quick else texts("sig6", 4), "eh", excl)
+    if res["stats"]["error_histories"] == 0 or res2["stats"]["error_histories"] == 0:
+        raise ToolError("no error history was produced under tiny backtrack limits (vacuous)")
+    return res
+
+
 def iter_spaces(ctx, part):
     t3 = texts("sig6", 3)
     small = []
@@ -886,7 +916,7 @@ def run_parse_oracle(ctx, name, recs, treelemma_is_violation=True):
 
 @check("C06")
 def c06(ctx):
-    ctx.rule = ("inputs = every sequence of up to N fragments of the 111-fragment vocabulary of Contract.tla (exported by TLC), the amplification family "
+    ctx.rule = ("inputs = every sequence of up to N fragments of the 97-fragment vocabulary of Contract.tla (exported by TLC), the amplification family "
                 "opener^k body closer^k for k in {64, 1000, 100000}, 30 construct templates x 17 huge-count / huge-index stressors, seeded random longer sequences and mutations of valid patterns; each is passed to "
                 "Regex::new in a child process (debug build: overflow checks on; 2 GiB address-space limit; CPU limit) under catch_unwind; TLC checks the "
                 "contract on every recorded outcome (Ok or Err, error position <= length, time budget); a dead child is the outcome `abort` of the input "
@@ -1032,14 +1062,17 @@ def c04(ctx):
             elif x < 2 * frac:
                 out.append(dict(r, variant="x"))
         return renumber_ids(out)
+    pcf = read_ndjson(pats("plainctx", 0))
     if ctx.quick:
-        spaces = [("plain123", variants(sample(ctx, plain, 700), 0.15), t3, "fi,ci,sp,co,rows"),
+        spaces = [("plainctx", variants(sample(ctx, pcf, 150), 0.1), t3, "fi,ci,sp,co,rows"),
+                  ("plain123", variants(sample(ctx, plain, 600), 0.15), t3, "fi,ci,sp,co,rows"),
                   ("plain_rp", variants(sample(ctx, plain, 400), 0.15), t2, "rp"),
                   ("random_plain", variants(randgen.random_pats(ctx.rng, "plain", 500, depth=3), 0.15), t3, "fi,ci,sp,co,rows"),
                   ("random_plain_rp", variants(randgen.random_pats(ctx.rng, "plain", 300, depth=3), 0.15), t2, "rp")]
     else:
         p4 = read_ndjson(pats("plain", 4))
-        spaces = [("plain123", variants(plain, 0.3), t3, "fi,ci,sp,co,rows"), ("plain_rp", variants(plain, 0.3), t2, "rp"),
+        spaces = [("plainctx", variants(pcf, 0.3), t3, "fi,ci,sp,co,rows"), ("plainctx_rp", variants(pcf, 0.2), t2, "rp"),
+                  ("plain123", variants(plain, 0.3), t3, "fi,ci,sp,co,rows"), ("plain_rp", variants(plain, 0.3), t2, "rp"),
                   ("plain4", variants(sample(ctx, p4, 15000), 0.2), t3, "fi,ci,sp,co,rows"),
                   ("random_plain", variants(randgen.random_pats(ctx.rng, "plain", 15000, depth=4, max_nodes=16), 0.2), t3, "fi,ci,sp,co,rows"),
                   ("random_plain_rp", variants(randgen.random_pats(ctx.rng, "plain", 5000, depth=4, max_nodes=16), 0.2), t2, "rp")]
@@ -1075,6 +1108,7 @@ def c09(ctx):
                   ("random_wild", randgen.random_pats(ctx.rng, "wild", 20000, depth=4, max_nodes=16), tw)]
     for name, recs, tpath in spaces:
         iterp.run_iters(ctx, name, recs, tpath, "co", "")
+    error_histories(ctx, "")
     ctx.exhaustive = False
     ctx.assumptions = ["no reference semantics involved: only equations among values recorded from the real API", "MC_Iter: on the model the two iterators are one definition"]
     return "model_checking"
@@ -1090,6 +1124,7 @@ def c10(ctx):
     apalache_split(ctx)
     for name, recs, tpath in iter_spaces(ctx, "sp"):
         iterp.run_iters(ctx, name, recs, tpath, "sp", excl)
+    error_histories(ctx, excl)
     probe_known(ctx, "sp", kind="iters")
     ctx.exhaustive = False
     ctx.assumptions = ITER_ASSUME
@@ -1108,6 +1143,7 @@ def c11(ctx):
     named = randgen.random_pats(ctx.rng, "named", 300 if ctx.quick else 3000, depth=3)
     for name, recs, _ in spaces + [("named", named, None)]:
         iterp.run_iters(ctx, name, recs, t2, "rp", excl)
+    error_histories(ctx, excl)
     if not ctx.quick:
         t3s = os.path.join(common.workdir("C11"), "texts3sample.ndjson")
         allt3 = read_ndjson(texts("sig6", 3))
